@@ -193,3 +193,40 @@ Proof.
   cbv zeta. split; [|split; [reflexivity|split; [vm_compute; reflexivity|vm_compute; discriminate]]].
   cbn [wf]. split; [vm_compute; reflexivity|]. intros H. reflexivity.
 Qed.
+
+(** ---- an operation gives up on a stage only when its stub is closed (C10 / C14: a toxic that is
+    added or updated reaches every live connection, however long its stage is busy) *)
+Theorem interrupt_gives_up_only_on_closed l p w :
+  interrupt_try l p w = IFalse -> exists s, nth_error (l_stubs l) p = Some s /\ s_closed s = true /\ w = false.
+Proof.
+  unfold interrupt_try. destruct (nth_error (l_stubs l) p) as [s|]; [|discriminate].
+  destruct w; [destruct (is_exited s); discriminate|].
+  destruct (s_closed s) eqn:E; [intros _; exists s; auto|].
+  destruct (listens_interrupt s); discriminate.
+Qed.
+
+(** a restart decides afresh: the stage that runs afterwards is the one of the new attributes and of the
+    new toxicity decision, started in its initial state, with the stub's per-connection state kept *)
+Theorem restart_takes_the_new_toxic l p tx eff l' :
+  ctl_step l (CRestart p tx eff) = Some l' ->
+  exists s s', nth_error (l_stubs l) p = Some s /\ nth_error (l_stubs l') p = Some s' /\
+    s_tx s' = tx /\ s_eff s' = eff /\ s_inq s' = s_inq s /\
+    s_st s' = init_state (if eff then tx else TNoop) (s_ps s') (l_now l).
+Proof.
+  cbn [ctl_step]. destruct (nth_error (l_stubs l) p) as [s|] eqn:Hn; [|discriminate].
+  destruct (is_exited s && negb (s_closed s)); [|discriminate]. intros H; inversion H; subst; clear H.
+  exists s. eexists. split; [reflexivity|]. split.
+  - unfold upd_stub; cbn [l_stubs]. clear -Hn. revert p Hn. induction (l_stubs l) as [|x xs IH]; intros [|p] Hn; simpl in *; try discriminate; auto.
+  - cbn. auto.
+Qed.
+
+(** the update process: once the interrupted stage has returned, the next move restarts it with the
+    toxic and the decision of the request *)
+Theorem update_restarts_with_the_request r p tx eff :
+  r_ph r = PUpd p tx eff true ->
+  (exists s, nth_error (l_stubs (r_l r)) p = Some s /\ is_exited s = true /\ s_closed s = false) ->
+  exists r', ctl_move r = Some (Some (MCtl (CRestart p tx eff)), r') /\ r_ph r' = PIdle.
+Proof.
+  intros Hph (s & Hn & Hex & Hcl). unfold ctl_move. rewrite Hph. unfold interrupt_try. rewrite Hn, Hex.
+  unfold do_ctl. cbn [ctl_step]. rewrite Hn, Hex, Hcl. cbn. eexists. split; reflexivity.
+Qed.
